@@ -359,6 +359,23 @@ func c20Exec(op string) string {
 			x2jw.XmlMsgsFromReader(cr, func(m map[string]interface{}) bool { first = append(first, enc(m)); return false }, eh, cast)
 			x2jw.XmlMsgsFromReader(cr, func(m map[string]interface{}) bool { rest = append(rest, enc(m)); return true }, eh, cast)
 			chk("x2jw.XmlMsgsFromReader(stop, continue)", len(first) == 1 && first[0] == one && len(rest) == 1 && rest[0] == one)
+			{
+				// a malformed message between two copies: the error handler is asked once; its false
+				// ends the loop with the error after the first message, its true lets the loop go on
+				bad3 := append(append(append(append([]byte{}, doc...), []byte("<zbad>x</zworse>\n")...), doc...), '\n')
+				for _, cont := range []bool{false, true} {
+					var got []string
+					nerr := 0
+					e3 := x2jw.XmlMsgsFromReader(bytes.NewReader(bad3), func(m map[string]interface{}) bool { got = append(got, enc(m)); return true }, func(error) bool { nerr++; return cont }, cast)
+					okc := nerr == 1 && len(got) >= 1 && got[0] == one
+					if cont {
+						okc = okc && e3 == nil && len(got) == 2 && got[1] == one
+					} else {
+						okc = okc && e3 != nil && len(got) == 1
+					}
+					chk(fmt.Sprintf("x2jw.XmlMsgsFromReader(malformed message, error handler answers %v)", cont), okc)
+				}
+			}
 			var seenJ []string
 			emj := x2jw.XmlMsgsFromReaderAsJson(bytes.NewReader(two), func(s string) bool { seenJ = append(seenJ, s); return len(seenJ) < 1 }, eh, cast)
 			ref, _ := json.Marshal(map[string]interface{}(mc2))
@@ -406,6 +423,44 @@ func c20Exec(op string) string {
 		chk("x2jw.NewAttributeMap(bad)", eam2 != nil)
 	}
 	sort.Strings(bad)
+	// a document the decoder rejects is rejected by every wrapper that has to decode it (an error,
+	// never a value computed from part of it)
+	if bx := doc[:len(doc)/2]; len(bx) > 0 {
+		if _, e := mxj.NewMapXml(bx); e != nil {
+			_, e1 := x2j.XmlToMap(bx)
+			_, e2 := x2j.XmlToJson(bx)
+			_, e3 := x2j.XmlPathsForTag(bx, key)
+			_, e4 := x2j.XmlValuesForTag(bx, key)
+			_, e5 := x2j.XmlValuesForPath(bx, path)
+			_, e6 := x2j.XmlLeafNodes(bx)
+			_, e7 := x2j.XmlUpdateValsForPath(bx, deepCopy(newVal), path)
+			_, e8 := x2j.XmlNewXml(bx, "a:b")
+			_, e9 := x2jw.DocToMap(string(bx))
+			_, e10 := x2jw.DocToJson(string(bx))
+			_, e11 := x2jw.PathsForTag(string(bx), key)
+			_, e12 := x2jw.ValuesFromTagPath(string(bx), path)
+			_, e13 := x2jw.ValuesAtTagPath(string(bx), path)
+			_, e14 := x2jw.ValuesForTag(string(bx), key)
+			for i, e := range []error{e1, e2, e3, e4, e5, e6, e7, e8, e9, e10, e11, e12, e13, e14} {
+				chk(fmt.Sprintf("wrapper %d of the XML error battery accepts a document NewMapXml rejects", i+1), e != nil)
+			}
+		}
+	}
+	if bj := jtxt[:len(jtxt)/2]; len(bj) > 0 {
+		if _, e := mxj.NewMapJson(bj); e != nil {
+			_, e1 := j2x.JsonToMap(bj)
+			_, e2 := j2x.JsonToXml(bj)
+			_, e3 := j2x.JsonPathsForKey(bj, key)
+			_, e4 := j2x.JsonValuesForKey(bj, key)
+			_, e5 := j2x.JsonValuesForKeyPath(bj, path)
+			_, e6 := j2x.JsonLeafNodes(bj)
+			_, e7 := j2x.JsonUpdateValsForPath(bj, deepCopy(newVal), path)
+			_, e8 := j2x.JsonNewJson(bj, "a:b")
+			for i, e := range []error{e1, e2, e3, e4, e5, e6, e7, e8} {
+				chk(fmt.Sprintf("wrapper %d of the JSON error battery accepts a text NewMapJson rejects", i+1), e != nil)
+			}
+		}
+	}
 	return "ok | " + strings.Join(bad, ",")
 }
 
